@@ -149,6 +149,12 @@ fn check_word(body: &str, nsyms: usize, cx: &mut Cx) {
                                 if p.width + ref_char_width(c) <= limit {
                                     why = "not maximal: the first character of the following piece would have fitted";
                                 }
+                                // "fitted" is relative to the bound clause, which permits a piece with a
+                                // single non-zero-width character whatever the limit: a piece without any
+                                // non-zero-width character can always take one more character
+                                if ref_visible(p.word).map_or(false, |pv| pv.nonzero() == 0) {
+                                    why = "not maximal: a piece without a non-zero-width character is followed by another piece (its first character would have fitted as the single permitted one)";
+                                }
                             }
                             None => why = "a following piece without any visible character",
                         }
